@@ -219,7 +219,7 @@ def sec_summarize():
         try:
             res = float(S.SUMMARIZE_DEFAULTS[n](rec))
         except Exception:  # noqa: BLE001
-            rules.append((n, "error", [], ""))
+            rules.append((n, "error", []))
             continue
         reads = list(dict.fromkeys(rec.reads))
         kind = "unknown"
